@@ -39,3 +39,12 @@ Theorem C07_accepted_violator_valid :
           TUmx (mx_of (length rs) (length rs - 1) (List.map (del j) (submat M rs cs))))).
 Proof. exact tu_violator_sound. Qed.
 Print Assumptions C07_accepted_violator_valid.
+
+(* for matrices of any size (no brute-force oracle involved): a "not TU" answer accepted together with its requested
+   submatrix is certified by that submatrix *)
+Theorem C07_certified_no_any_size :
+  forall rec cfg m n (M : mat) rc sub rest,
+  tu_input rec = Some ((cfg, (m, n, M), rc, Z0, sub), rest) -> judge_tu_cert rec = Z0 ->
+  cfg_want_sub cfg = true -> ~ TUmx (mx_of m n M).
+Proof. exact tu_cert_no_sound. Qed.
+Print Assumptions C07_certified_no_any_size.
